@@ -624,5 +624,47 @@ def const_str(n):
         isinstance(n.value, str) else None
 
 
-RULES = [sampler_rng, index_edit, c01_setters, c01_init_stores, c14_update, trial_record, final_reset, reset_before_apply, reset_covers, one_sample,
+def trial_updated(ctx):
+    """'reports true perturbed performance': the operands of a trial are
+    evaluated on the perturbed lens with its pickups and solves applied.
+    Perturbation.apply only edits one variable; Optic.update must run between
+    the perturbations and the evaluation on every path - with compensators the
+    optimiser does it, without them apply_compensators has to."""
+    P = ctx.P
+    res = Result('TRIAL-UPDATED', 'every trial applies pickups and solves '
+                 '(Optic.update) after the perturbations, with or without '
+                 'compensators')
+    f = P.func('Tolerancing.apply_compensators')
+    res.saw(f)
+
+    def is_update(st):
+        return isinstance(st, ast.Expr) and isinstance(st.value, ast.Call) \
+            and unparse(st.value.func) in ('self.optic.update',
+                                           'self.optic.update_optics')
+    top = any(is_update(st) for st in f.node.body)
+    both = False
+    for st in f.node.body:
+        if isinstance(st, ast.If) and st.orelse and \
+                any(is_update(x) for x in st.orelse) and \
+                'has_variables' in unparse(st.test):
+            both = True
+    pa = P.func('Perturbation.apply')
+    res.saw(pa)
+    in_apply = any(isinstance(c, ast.Call) and
+                   unparse(c.func).endswith('optic.update')
+                   for c in ast.walk(pa.node))
+    if top or both or in_apply:
+        res.ok('Optic.update runs in every trial')
+    else:
+        res.fail(ctx.finding(
+            'TRIAL-UPDATED', f, f.node,
+            'apply_compensators does nothing when there is no compensator, '
+            'and Perturbation.apply only edits its variable: pickups and '
+            'solves keep their nominal values in such a trial (singlet with '
+            'pickup R2 = -R1, R1 perturbed to 45: recorded f2 48.214, true '
+            '45.849)', construct='no update without compensators'))
+    return res
+
+
+RULES = [trial_updated, sampler_rng, index_edit, c01_setters, c01_init_stores, c14_update, trial_record, final_reset, reset_before_apply, reset_covers, one_sample,
          target_default]
